@@ -146,6 +146,19 @@ def _alarm_handler(signum, frame):  # pragma: no cover
 RUN_WALL_S = int(os.environ.get("VERIF_RUN_WALL", "40"))
 
 
+def guarded_generate(mod, tape, tier):
+    """generate under the wall-clock watchdog (a generator looping on a zero tape must not hang the batch)"""
+    old = signal.signal(signal.SIGALRM, _alarm_handler)
+    signal.alarm(20)
+    try:
+        return mod.generate(tape, tier)
+    except WallHang:
+        raise HarnessError("scenario generator did not terminate within 20 s")
+    finally:
+        signal.alarm(0)
+        signal.signal(signal.SIGALRM, old)
+
+
 def guarded_execute(mod, scenario):
     """Execute one scenario with a wall-clock watchdog.  Returns the result dict of
     the check module; harness problems are returned under key 'harness'."""
@@ -216,7 +229,7 @@ def _worker(modname, tier, seeds, want_samples):
     for s in seeds:
         tape = Tape(seed=s)
         try:
-            sc = mod.generate(tape, tier)
+            sc = guarded_generate(mod, tape, tier)
         except Exception as e:
             out.append({"seed": s, "harness": "generate: " + "".join(
                 traceback.format_exception(type(e), e, e.__traceback__))[-2000:]})
@@ -248,7 +261,7 @@ def shrink(mod, tier, tape_rec, key, budget=250, log=None, want_sig=None):
     def attempt(prefix):
         t = Tape(prefix=prefix)
         try:
-            sc = mod.generate(t, tier)
+            sc = guarded_generate(mod, t, tier)
         except Exception:
             return None
         res = guarded_execute(mod, sc)
